@@ -1,1 +1,480 @@
 import NetVerif.Model.WebdavCopyMove
+import NetVerif.Proofs.Lemmas.FS
+/-!
+C46 — WebDAV COPY and MOVE never destroy their source.
+
+Model: `WebdavCopyMove.handle` (= `Handler.handleCopyMove` ∘ `copyFiles`/`moveFiles` over the
+`memFS` model), for an arbitrary lock gate, prefix, tree and request.
+
+* `CopyStatement handle` / `MoveStatement handle` are the property at full strength.  Both are
+  FALSE for the code as it is (`copy_full_false`, `move_full_false`, concrete witnesses): the
+  handler compares source and destination textually, the filesystem resolves them after cleaning.
+* `copy_holds_partial` / `move_holds_partial`: the property holds outside the decidable regions
+  `copyRegion` (destination resolves to the source or to one of its ancestors) and `moveRegion`
+  (source and destination resolve to the same resource or one contains the other).
+* `fixed_copy` / `fixed_move`: with the minimal fix (`handleFixed`: compare cleaned paths and refuse
+  those regions) the full statements hold.
+-/
+namespace NetVerif.Proofs.C46
+open NetVerif.Model.FS NetVerif.Model.WebdavCopyMove NetVerif.Proofs.Lemmas.FS
+
+/-! ### Every write of `copyFiles` is at or below its destination -/
+
+theorem removeAll_outside {t t1 : Tree} {d d0 : Path} (h : Mem.removeAll t d = .ok t1)
+    (hd : under d0 d = true) : outside d0 t1 = outside d0 t := by
+  unfold Mem.removeAll at h
+  split at h
+  · cases h
+  · split at h
+    · cases h
+    · cases h; exact outside_outside_of_under hd t
+
+theorem mkdir_outside {t t1 : Tree} {d d0 : Path} (h : Mem.mkdir t d = .ok t1)
+    (hd : under d0 d = true) : outside d0 t1 = outside d0 t := by
+  unfold Mem.mkdir at h
+  split at h
+  · cases h
+  · split at h
+    · cases h
+    · split at h
+      · cases h
+      · cases h; rw [outside_append, outside_singleton_under hd]; simp
+
+theorem openFile_outside {t t1 : Tree} {d d0 : Path} {f : Mem.Flags} {info : Mem.OpenInfo}
+    (h : Mem.openFile t d f = .ok (t1, info)) (hd : under d0 d = true) :
+    outside d0 t1 = outside d0 t := by
+  unfold Mem.openFile at h
+  split at h
+  · cases h
+  · split at h
+    · split at h
+      · cases h
+      · cases h; rfl
+    · split at h
+      · cases h
+      · dsimp only at h
+        split at h
+        · cases h
+        · split at h
+          · split at h
+            · cases h; rw [outside_append, outside_singleton_under hd]; simp
+            · cases h
+          · cases h; rfl
+          · split at h
+            · cases h; exact outside_setEntry hd _ _
+            · cases h; rfl
+
+theorem copyPre_outside {t t1 : Tree} {d d0 : Path} {ow c : Bool} (h : copyPre t d ow = .ok (t1, c))
+    (hd : under d0 d = true) : outside d0 t1 = outside d0 t := by
+  unfold copyPre at h
+  split at h
+  · split at h
+    · cases h; rfl
+    · cases h
+  · split at h
+    · cases h
+    · split at h
+      · split at h
+        · cases h; rfl
+        · cases h
+      · rename_i hr
+        cases h; exact removeAll_outside hr hd
+
+theorem copyFileTo_outside (t1 : Tree) (d d0 : Path) (data : List Nat) (done : Nat)
+    (hd : under d0 d = true) : outside d0 (copyFileTo t1 d data done).1 = outside d0 t1 := by
+  unfold copyFileTo
+  split
+  · rfl
+  · rename_i t2 info h
+    have h2 := openFile_outside h hd
+    repeat' split
+    · exact h2
+    · exact h2
+    · simp only; rw [outside_setEntry hd]; exact h2
+
+theorem copyKids_outside (step : Tree → Name → Tree × Nat) (d0 : Path)
+    (hstep : ∀ t c, outside d0 (step t c).1 = outside d0 t) (t : Tree) (cs : List Name) :
+    outside d0 (copyKids step t cs).1 = outside d0 t := by
+  induction cs generalizing t with
+  | nil => rfl
+  | cons c cs ih =>
+    simp only [copyKids]
+    split
+    · rw [ih]; exact hstep t c
+    · exact hstep t c
+
+/-- Key lemma: `copyFiles … dst …` changes the tree only at or below `dst`. -/
+theorem copyFiles_outside (fuel : Nat) (t : Tree) (s d : Path) (ow inf : Bool) (d0 : Path)
+    (hd : under d0 d = true) : outside d0 (copyFiles fuel t s d ow inf).1 = outside d0 t := by
+  induction fuel generalizing t s d with
+  | zero => rfl
+  | succ n ih =>
+    unfold copyFiles
+    split
+    · rfl
+    · split
+      · rfl
+      · rename_i t1 created hpre
+        have h1 := copyPre_outside hpre hd
+        simp only
+        split
+        · split
+          · exact h1
+          · rename_i t2 hmk
+            have h2 := mkdir_outside hmk hd
+            split
+            · have hk := copyKids_outside
+                (fun t' c => copyFiles n t' (s ++ [c]) (d ++ [c]) ow inf) d0
+                (fun t' c => ih t' (s ++ [c]) (d ++ [c]) (under_trans hd (under_append d [c])))
+              split
+              · rename_i t3 st heq
+                have := congrArg (fun r => outside d0 r.1) heq
+                simp only at this ⊢
+                rw [← this, hk, h2, h1]
+              · rename_i t3 heq
+                have := congrArg (fun r => outside d0 r.1) heq
+                simp only at this ⊢
+                rw [← this, hk, h2, h1]
+            · simp only; rw [h2, h1]
+        · rw [copyFileTo_outside _ _ _ _ _ hd, h1]
+
+
+/-! ### Statements -/
+
+abbrev Handler := Gate → List Nat → Tree → Req → Tree × Nat
+
+/-- What "the source resource and its descendants" means for source `S` and destination `D`
+(cleaned): the entries at or below `S`; when `D` lies strictly inside `S`, the destination
+subtree — which the client asked to create or overwrite — is left out. -/
+def srcView (S D : Path) (t : Tree) : Tree :=
+  if under D S then sub t S else sub (outside D t) S
+
+/-- C46, COPY, full strength: whatever the Destination header, lock state, prefix and tree,
+the source resource and its descendants are unchanged afterwards. -/
+def CopyStatement (hdl : Handler) : Prop :=
+  ∀ (gate : Gate) (pre : List Nat) (t : Tree) (r : Req) (host : HostClass) (dpath src dst : List Nat),
+    r.isMove = false → r.dest = .parsed host dpath →
+    stripPrefix pre r.path = some src → stripPrefix pre dpath = some dst →
+    srcView (clean src) (clean dst) (hdl gate pre t r).1 = srcView (clean src) (clean dst) t
+
+/-- C46, MOVE, full strength: the source is left intact, or it is gone and sits intact at
+the destination. -/
+def MoveStatement (hdl : Handler) : Prop :=
+  ∀ (gate : Gate) (pre : List Nat) (t : Tree) (r : Req) (host : HostClass) (dpath src dst : List Nat),
+    r.isMove = true → r.dest = .parsed host dpath →
+    stripPrefix pre r.path = some src → stripPrefix pre dpath = some dst →
+    sub (hdl gate pre t r).1 (clean src) = sub t (clean src) ∨
+    (sub (hdl gate pre t r).1 (clean src) = [] ∧
+     sub (hdl gate pre t r).1 (clean dst) = rebase (clean src) (clean dst) (sub t (clean src)))
+
+/-- Region excluded from the COPY theorem: the destination resolves to the source or to an
+ancestor of it. -/
+def copyRegion (S D : Path) : Bool := under D S
+
+/-- Region excluded from the MOVE theorem: source and destination resolve to the same resource,
+or one contains the other. -/
+def moveRegion (S D : Path) : Bool := under D S || under S D
+
+/-- When source and destination do not overlap, `srcView` is just the source subtree. -/
+theorem srcView_of_incomparable {S D : Path} (h1 : under D S = false) (h2 : under S D = false) (t : Tree) :
+    srcView S D t = sub t S := by
+  simp [srcView, h1, sub_outside_incomparable h1 h2]
+
+/-! ### Requests that are refused leave the filesystem alone -/
+
+theorem handle_no_destination (gate : Gate) (pre : List Nat) (t : Tree) (r : Req)
+    (h : r.dest = .absent ∨ r.dest = .invalid) : handle gate pre t r = (t, 400) := by
+  unfold handle; rcases h with h | h <;> rw [h]
+
+theorem handle_other_host (gate : Gate) (pre : List Nat) (t : Tree) (r : Req) (p : List Nat)
+    (h : r.dest = .parsed .other p) : handle gate pre t r = (t, 502) := by
+  unfold handle; rw [h]; simp
+
+theorem handle_prefix_mismatch (gate : Gate) (pre : List Nat) (t : Tree) (r : Req) (host : HostClass)
+    (p : List Nat) (h : r.dest = .parsed host p)
+    (hs : stripPrefix pre r.path = none ∨ stripPrefix pre p = none) : (handle gate pre t r).1 = t := by
+  unfold handle; rw [h]; simp only
+  split
+  · rfl
+  · rcases hs with hs | hs
+    · rw [hs]
+    · rw [hs]; split <;> rfl
+
+/-- The handler's own check: textually equal source and destination are refused with 403. -/
+theorem handle_textually_equal (gate : Gate) (pre : List Nat) (t : Tree) (r : Req) (host : HostClass)
+    (p src : List Nat) (h : r.dest = .parsed host p) (hh : host ≠ .other) (hne : src ≠ [])
+    (hs : stripPrefix pre r.path = some src) (hd : stripPrefix pre p = some src) :
+    handle gate pre t r = (t, 403) := by
+  unfold handle; rw [h]; simp [hh, hs, hd, hne]
+
+/-- A request stopped by the lock check changes nothing. -/
+theorem handle_locked (gate : Gate) (pre : List Nat) (t : Tree) (r : Req) (host : HostClass)
+    (p src dst : List Nat) (st : Nat) (h : r.dest = .parsed host p)
+    (hs : stripPrefix pre r.path = some src) (hd : stripPrefix pre p = some dst)
+    (hg : gate r.isMove (if r.isMove then src else []) dst r.ifTokens = some st) :
+    (handle gate pre t r).1 = t := by
+  unfold handle; rw [h]; simp only [hs, hd]
+  cases hm : r.isMove <;> simp only [hm] at hg <;> repeat' split
+  all_goals first | rfl | simp_all
+
+/-! ### COPY -/
+
+theorem copy_holds_partial (gate : Gate) (pre : List Nat) (t : Tree) (r : Req) (host : HostClass)
+    (dpath src dst : List Nat)
+    (hm : r.isMove = false) (hdest : r.dest = .parsed host dpath)
+    (hs : stripPrefix pre r.path = some src) (hd : stripPrefix pre dpath = some dst)
+    (hreg : copyRegion (clean src) (clean dst) = false) :
+    srcView (clean src) (clean dst) (handle gate pre t r).1 = srcView (clean src) (clean dst) t := by
+  unfold copyRegion at hreg
+  unfold handle; rw [hdest]; simp only [hs, hd, hm]
+  repeat' split
+  all_goals first
+    | rfl
+    | (simp only [srcView, hreg]
+       rw [copyFiles_outside _ _ _ _ _ _ _ (under_refl _)]
+       simp)
+    | simp_all
+
+
+/-! ### MOVE -/
+
+theorem movePre_sub {t t1 : Tree} {S D : Path} {ow c : Bool} (h : movePre t D ow = .ok (t1, c))
+    (h1 : under D S = false) (h2 : under S D = false) : sub t1 S = sub t S := by
+  unfold movePre at h
+  split at h
+  · split at h
+    · cases h; rfl
+    · cases h
+  · split at h
+    · split at h
+      · cases h
+      · rename_i hr
+        cases h
+        unfold Mem.removeAll at hr
+        split at hr
+        · cases hr
+        · split at hr
+          · cases hr
+          · cases hr; exact sub_outside_incomparable h1 h2 t
+    · cases h
+
+/-- A successful `Rename` between non-overlapping names moves the subtree as a whole. -/
+theorem rename_ok {t t2 : Tree} {S D : Path} (h : Mem.rename t S D = .ok t2) (hne : S ≠ D) :
+    t2 = outside D (outside S t) ++ rebase S D (sub t S) := by
+  unfold Mem.rename at h
+  simp only [hne, if_false] at h
+  repeat' split at h
+  all_goals first
+    | (cases h; rfl)
+    | cases h
+
+theorem moveFiles_partial (t : Tree) (S D : Path) (ow : Bool)
+    (h1 : under D S = false) (h2 : under S D = false) :
+    sub (moveFiles t S D ow).1 S = sub t S ∨
+    (sub (moveFiles t S D ow).1 S = [] ∧ sub (moveFiles t S D ow).1 D = rebase S D (sub t S)) := by
+  have hne : S ≠ D := by
+    intro h; rw [h, under_refl] at h1; cases h1
+  unfold moveFiles
+  split
+  · left; rfl
+  · rename_i t1 created hpre
+    have hsub := movePre_sub hpre h1 h2
+    split
+    · left; exact hsub
+    · rename_i t2 hr
+      right
+      simp only
+      rw [rename_ok hr hne, sub_append, sub_append]
+      refine ⟨?_, ?_⟩
+      · rw [sub_outside_incomparable h1 h2, sub_outside_self, sub_rebase_incomparable h1 h2]; rfl
+      · rw [sub_outside_self, sub_rebase_dst, hsub]; rfl
+
+theorem move_holds_partial (gate : Gate) (pre : List Nat) (t : Tree) (r : Req) (host : HostClass)
+    (dpath src dst : List Nat)
+    (hm : r.isMove = true) (hdest : r.dest = .parsed host dpath)
+    (hs : stripPrefix pre r.path = some src) (hd : stripPrefix pre dpath = some dst)
+    (hreg : moveRegion (clean src) (clean dst) = false) :
+    sub (handle gate pre t r).1 (clean src) = sub t (clean src) ∨
+    (sub (handle gate pre t r).1 (clean src) = [] ∧
+     sub (handle gate pre t r).1 (clean dst) = rebase (clean src) (clean dst) (sub t (clean src))) := by
+  unfold moveRegion at hreg
+  have h1 : under (clean dst) (clean src) = false := by
+    cases h : under (clean dst) (clean src) <;> simp_all
+  have h2 : under (clean src) (clean dst) = false := by
+    cases h : under (clean src) (clean dst) <;> simp_all
+  unfold handle; rw [hdest]; simp only [hs, hd, hm]
+  repeat' split
+  all_goals first
+    | (left; rfl)
+    | exact moveFiles_partial _ _ _ _ h1 h2
+    | simp_all
+
+/-! ### The code as it is violates both full statements (concrete witnesses) -/
+
+/-- A gate that always confirms (e.g. `memLS` with no locks held by anybody else). -/
+def openGate : Gate := fun _ _ _ _ => none
+
+/-- `/a` (collection) with one member `/a/x`. -/
+def treeA : Tree := [([[97]], .dir), ([[97], [120]], .file [1])]
+
+/-- `COPY /a`, `Destination: /a/` (same resource, different spelling). -/
+def copyEquivReq : Req :=
+  { isMove := false, path := [47, 97], dest := .parsed .none [47, 97, 47],
+    overwrite := .absent, depth := .absent, ifTokens := none }
+
+/-- `COPY /a/x`, `Destination: /a` (an ancestor of the source). -/
+def copyAncestorReq : Req :=
+  { isMove := false, path := [47, 97, 47, 120], dest := .parsed .none [47, 97],
+    overwrite := .absent, depth := .absent, ifTokens := none }
+
+/-- `MOVE /a/x`, `Destination: /a`, `Overwrite: T`. -/
+def moveAncestorReq : Req :=
+  { isMove := true, path := [47, 97, 47, 120], dest := .parsed .none [47, 97],
+    overwrite := .t, depth := .absent, ifTokens := none }
+
+/-- `MOVE /a`, `Destination: /a/`, `Overwrite: T`, `If: (<token 0>)`. -/
+def moveEquivReq : Req :=
+  { isMove := true, path := [47, 97], dest := .parsed .none [47, 97, 47],
+    overwrite := .t, depth := .absent, ifTokens := some [0] }
+
+/-- `MOVE /a`, `Destination: /a/x`, `Overwrite: T` (destination inside the source). -/
+def moveInsideReq : Req :=
+  { isMove := true, path := [47, 97], dest := .parsed .none [47, 97, 47, 120],
+    overwrite := .t, depth := .absent, ifTokens := none }
+
+/-- 404, and the member `/a/x` is gone. -/
+theorem witness_copy_equivalent :
+    handle (memGate []) [] treeA copyEquivReq = ([([[97]], .dir)], 404) := by decide +kernel
+
+/-- 204, and the collection `/a` has been replaced by a copy of its former member. -/
+theorem witness_copy_ancestor :
+    handle (memGate []) [] treeA copyAncestorReq = ([([[97]], .file [1])], 204) := by decide +kernel
+
+/-- 403, and both `/a` and `/a/x` are gone. -/
+theorem witness_move_ancestor :
+    handle (memGate []) [] treeA moveAncestorReq = ([], 403) := by decide +kernel
+
+/-- 204 ("moved"), and `/a` is gone; the client holds the lock on `/a` and submits its token. -/
+theorem witness_move_equivalent :
+    handle (memGate [some ⟨[[97]], false⟩]) [] treeA moveEquivReq = ([], 204) := by decide +kernel
+
+/-- 403, and the member `/a/x` (the destination) has been deleted although nothing was moved. -/
+theorem witness_move_inside :
+    handle (memGate []) [] treeA moveInsideReq = ([([[97]], .dir)], 403) := by decide +kernel
+
+theorem copy_full_false : ¬ CopyStatement handle := by
+  intro h
+  have := h (memGate []) [] treeA copyEquivReq .none [47, 97, 47] [47, 97] [47, 97, 47] rfl rfl rfl rfl
+  rw [witness_copy_equivalent] at this
+  revert this
+  decide +kernel
+
+/-- The second divergence class (destination is a proper ancestor) on its own. -/
+theorem copy_full_false_ancestor : ¬ CopyStatement handle := by
+  intro h
+  have := h (memGate []) [] treeA copyAncestorReq .none [47, 97] [47, 97, 47, 120] [47, 97] rfl rfl rfl rfl
+  rw [witness_copy_ancestor] at this
+  revert this
+  decide +kernel
+
+theorem move_full_false : ¬ MoveStatement handle := by
+  intro h
+  have := h (memGate []) [] treeA moveAncestorReq .none [47, 97] [47, 97, 47, 120] [47, 97] rfl rfl rfl rfl
+  rw [witness_move_ancestor] at this
+  revert this
+  decide +kernel
+
+theorem move_full_false_equivalent : ¬ MoveStatement handle := by
+  intro h
+  have := h (memGate [some ⟨[[97]], false⟩]) [] treeA moveEquivReq .none [47, 97, 47] [47, 97] [47, 97, 47]
+    rfl rfl rfl rfl
+  rw [witness_move_equivalent] at this
+  revert this
+  decide +kernel
+
+theorem move_full_false_inside : ¬ MoveStatement handle := by
+  intro h
+  have := h (memGate []) [] treeA moveInsideReq .none [47, 97, 47, 120] [47, 97] [47, 97, 47, 120]
+    rfl rfl rfl rfl
+  rw [witness_move_inside] at this
+  revert this
+  decide +kernel
+
+/-! ### With the minimal fix the full statements hold -/
+
+theorem handle_dst_empty (gate : Gate) (pre : List Nat) (t : Tree) (r : Req) (host : HostClass)
+    (dpath src : List Nat) (hdest : r.dest = .parsed host dpath)
+    (hs : stripPrefix pre r.path = some src) (hd : stripPrefix pre dpath = some []) :
+    (handle gate pre t r).1 = t := by
+  unfold handle; rw [hdest]; simp only [hs, hd]
+  split <;> rfl
+
+theorem fixed_copy : CopyStatement handleFixed := by
+  intro gate pre t r host dpath src dst hm hdest hs hd
+  unfold handleFixed
+  rw [hdest]; simp only [hs, hd]
+  split
+  · rw [handle_other_host gate pre t r dpath (by simp_all)]
+  · split
+    · rfl
+    · rename_i hc
+      by_cases hdst : dst = []
+      · subst hdst; rw [handle_dst_empty gate pre t r host dpath src hdest hs hd]
+      · have hreg : copyRegion (clean src) (clean dst) = false := by
+          unfold copyRegion
+          cases h : under (clean dst) (clean src) <;> simp_all
+        exact copy_holds_partial gate pre t r host dpath src dst hm hdest hs hd hreg
+
+theorem fixed_move : MoveStatement handleFixed := by
+  intro gate pre t r host dpath src dst hm hdest hs hd
+  unfold handleFixed
+  rw [hdest]; simp only [hs, hd]
+  split
+  · rw [handle_other_host gate pre t r dpath (by simp_all)]; left; rfl
+  · split
+    · left; rfl
+    · rename_i hc
+      by_cases hdst : dst = []
+      · subst hdst; rw [handle_dst_empty gate pre t r host dpath src hdest hs hd]; left; rfl
+      · have hreg : moveRegion (clean src) (clean dst) = false := by
+          unfold moveRegion
+          cases h1 : under (clean dst) (clean src) <;> cases h2 : under (clean src) (clean dst) <;> simp_all
+        exact move_holds_partial gate pre t r host dpath src dst hm hdest hs hd hreg
+
+/-- The fix refuses nothing outside the two regions: there `handleFixed` is `handle`. -/
+theorem fixed_agrees_outside (gate : Gate) (pre : List Nat) (t : Tree) (r : Req) (host : HostClass)
+    (dpath src dst : List Nat) (hdest : r.dest = .parsed host dpath)
+    (hs : stripPrefix pre r.path = some src) (hd : stripPrefix pre dpath = some dst)
+    (hreg : moveRegion (clean src) (clean dst) = false) :
+    handleFixed gate pre t r = handle gate pre t r := by
+  unfold moveRegion at hreg
+  unfold handleFixed
+  rw [hdest]; simp only [hs, hd]
+  split
+  · rfl
+  · split
+    · simp_all
+    · rfl
+
+/-! ### Non-vacuity: the hypotheses of the partial theorems are satisfiable by real transfers -/
+
+/-- `COPY /a → /b` (Depth infinity): 201 and `/a`, `/a/x` are still there, with a copy below `/b`. -/
+example : handle (memGate []) [] treeA
+    { isMove := false, path := [47, 97], dest := .parsed .none [47, 98], overwrite := .absent,
+      depth := .absent, ifTokens := none }
+    = ([([[97]], .dir), ([[97], [120]], .file [1]), ([[98]], .dir), ([[98], [120]], .file [1])], 201) := by
+  decide +kernel
+
+example : copyRegion (clean [47, 97]) (clean [47, 98]) = false := by decide
+example : moveRegion (clean [47, 97]) (clean [47, 98]) = false := by decide
+example : copyRegion (clean [47, 97]) (clean [47, 97, 47]) = true := by decide
+example : copyRegion (clean [47, 97, 47, 120]) (clean [47, 46, 47, 97]) = true := by decide
+
+/-- `MOVE /a → /b`: 201, the subtree now sits below `/b`. -/
+example : handle (memGate []) [] treeA
+    { isMove := true, path := [47, 97], dest := .parsed .none [47, 98], overwrite := .absent,
+      depth := .absent, ifTokens := none }
+    = ([([[98]], .dir), ([[98], [120]], .file [1])], 201) := by
+  decide +kernel
+
+end NetVerif.Proofs.C46
